@@ -455,4 +455,182 @@ Proof.
     rewrite Ey. field. exact Hm0.
 Qed.
 
+(* ------------------------------------------------------------------------------------------ *)
+(** * a potential without drift (constant potential) leaves f unchanged, both schemes *)
+Lemma pol_nth_map {A B : Type} (f : A -> B) l i da db : (i < length l)%nat -> nth i (map f l) db = f (nth i l da).
+Proof. intros H. rewrite (nth_indep _ db (f da)) by (rewrite map_length; exact H). apply map_nth. Qed.
+Lemma pol_nth_map_seq {B : Type} (f : nat -> B) d n j : (j < n)%nat -> nth j (map f (seq 0 n)) d = f j.
+Proof. intros H. rewrite (pol_nth_map f (seq 0 n) j 0%nat d) by (rewrite seq_length; exact H). rewrite seq_nth by exact H. reflexivity. Qed.
+Lemma pol_grid_nth {B : Type} (h : nat -> nat -> B) d n m i j : (i < n)%nat -> (j < m)%nat ->
+  nth j (nth i (map (fun i => map (fun j => h i j) (seq 0 m)) (seq 0 n)) []) d = h i j.
+Proof. intros Hi Hj. rewrite (pol_nth_map_seq (fun i => map (fun j => h i j) (seq 0 m)) [] n i Hi). apply pol_nth_map_seq, Hj. Qed.
+
+(** the value of x % m for m <> 0 *)
+Definition pol_modv (x m : F) : F := x - m * ofZ (pol_floor F K (x / m)).
+Lemma pol_mod_modv x m : speqb K m 0 = false -> pol_mod F K x m = SpOk (pol_modv x m).
+Proof. intros H. unfold pol_mod. rewrite H. reflexivity. Qed.
+
+Lemma pol_prelude_eq (E : pol_ev F) dt B0 rPts qPts phi D1 D2 :
+  rPts <> [] -> speqb K B0 0 = false ->
+  pol_cross F E rPts qPts phi 0%nat 1%nat = SpOk D1 -> pol_cross F E rPts qPts phi 1%nat 0%nat = SpOk D2 ->
+  pol_grid_ok F rPts qPts D1 = true -> pol_grid_ok F rPts qPts D2 = true ->
+  pol_prelude F K E dt B0 rPts qPts phi = SpOk (dt / B0, D1, D2, hd 0 rPts, last rPts 0).
+Proof.
+  intros Hne HB Hc1 Hc2 Hg1 Hg2. unfold pol_prelude. rewrite HB, Hc1, Hc2. cbn [sp_bind].
+  rewrite Hg1, Hg2. cbn [andb]. destruct rPts as [|r0 rs]; [contradiction|]. reflexivity.
+Qed.
+
+Section ConstPhi.
+Variable E : pol_ev F.
+Variable feq : F -> F -> F.
+Variable pi_ : F.
+Variables (dt v B0 : F).
+Variable nul : bool.
+Variables (rPts qPts : list F).
+Variables (phi pol : pol_spl F).
+Notation nq := (pol_nq F qPts).
+Notation nr := (pol_nr F rPts).
+Notation twopi := (pol_twopi F K pi_).
+Notation rmin := (hd 0 rPts).
+Notation rmax := (last rPts 0).
+Notation qi i := (nth i qPts 0).
+Notation rj j := (nth j rPts 0).
+Notation mq i := (pol_modv (qi i) twopi).
+
+Hypothesis HB : speqb K B0 0 = false.
+Hypothesis Hpi : speqb K twopi 0 = false.
+Hypothesis Hne : rPts <> [].
+(** the nodes lie in the radial domain and no radius is zero *)
+Hypothesis Hr : forall j, (j < nr)%nat -> speqb K (rj j) 0 = false /\ pol_inside F K rmin rmax (rj j) = true.
+(** "a constant potential has zero derivative sums": both derivative tables at the nodes vanish,
+    and so do the derivatives at (theta_i mod 2 pi, r_j) *)
+Variables (D1 D2 : list (list F)).
+Hypothesis Hc1 : pol_cross F E rPts qPts phi 0%nat 1%nat = SpOk D1.
+Hypothesis Hc2 : pol_cross F E rPts qPts phi 1%nat 0%nat = SpOk D2.
+Hypothesis Hg1 : pol_grid_ok F rPts qPts D1 = true.
+Hypothesis Hg2 : pol_grid_ok F rPts qPts D2 = true.
+Hypothesis Hz1 : forall i j, (i < nq)%nat -> (j < nr)%nat -> pol_at F K D1 i j = 0.
+Hypothesis Hz2 : forall i j, (i < nq)%nat -> (j < nr)%nat -> pol_at F K D2 i j = 0.
+Hypothesis Hs : forall i j, (i < nq)%nat -> (j < nr)%nat ->
+  pol_scalar F E phi (mq i) (rj j) 0%nat 1%nat = SpOk 0 /\ pol_scalar F E phi (mq i) (rj j) 1%nat 0%nat = SpOk 0.
+(** exact interpolation: the spline of f at node (theta_i mod 2 pi, r_j) is f[i,j] *)
+Variable fv : nat -> nat -> F.
+Hypothesis Hf : forall i j, (i < nq)%nat -> (j < nr)%nat ->
+  pol_scalar F E pol (pol_modv (mq i) twopi) (rj j) 0%nat 0%nat = SpOk (fv i j).
+
+Definition pol_const_result : list (list (F * (F * F))) :=
+  map (fun i => map (fun j => (fv i j, (pol_modv (mq i) twopi, rj j))) (seq 0 nr)) (seq 0 nq).
+
+Lemma pol_r_ne0 j : (j < nr)%nat -> rj j <> 0.
+Proof. intros Hj E0. destruct (Hr j Hj) as [H _]. destruct (sp_eqb_spec F K HK (rj j) 0); [discriminate|contradiction]. Qed.
+
+Lemma pol_prelude_const :
+  pol_prelude F K E dt B0 rPts qPts phi = SpOk (dt / B0, D1, D2, rmin, rmax).
+Proof. apply pol_prelude_eq; assumption. Qed.
+
+Lemma pol_dk_zero i j : (i < nq)%nat -> (j < nr)%nat ->
+  pol_dk F K E phi rmin rmax (mq i) (rj j) = SpOk (0, 0).
+Proof.
+  intros Hi Hj. unfold pol_dk. destruct (Hr j Hj) as [H0 Hin]. rewrite Hin.
+  destruct (Hs i j Hi Hj) as [S1 S2]. rewrite S1. cbn [sp_bind]. rewrite H0, S2. cbn [sp_bind].
+  pose proof (pol_r_ne0 j Hj). replace (0 / rj j) with 0 by (field; assumption). reflexivity.
+Qed.
+
+Lemma pol_fill_const i j : (i < nq)%nat -> (j < nr)%nat ->
+  pol_fill F K E feq pi_ v nul pol rmin rmax (mq i, rj j) = SpOk (fv i j, (pol_modv (mq i) twopi, rj j)).
+Proof.
+  intros Hi Hj. destruct (Hr j Hj) as [_ Hin]. unfold pol_inside in Hin. apply negb_true_iff, orb_false_iff in Hin.
+  destruct Hin as [I1 I2].
+  rewrite (proj2 (proj2 (pol_fill_rule_spec F K E feq pi_ v nul pol rmin rmax (mq i) (rj j))) I1 I2).
+  rewrite (pol_mod_modv _ _ Hpi). cbn [sp_bind]. rewrite (Hf i j Hi Hj). reflexivity.
+Qed.
+
+Lemma pol_enode_const mf mfh i j : (i < nq)%nat -> (j < nr)%nat ->
+  pol_expl_node F K E pi_ phi rmin rmax mf mfh (qi i) (rj j) (pol_at F K D1 i j) (pol_at F K D2 i j) = SpOk (mq i, rj j).
+Proof.
+  intros Hi Hj. rewrite Hz1, Hz2 by assumption. destruct (Hr j Hj) as [H0 _]. pose proof (pol_r_ne0 j Hj) as Hn.
+  unfold pol_expl_node, pol_d0. rewrite H0. cbn [sp_bind fst snd].
+  replace (0 / rj j) with 0 by (field; assumption).
+  replace (qi i - 0 * mf) with (qi i) by ring. replace (rj j + 0 * mf) with (rj j) by ring.
+  rewrite (pol_mod_modv _ _ Hpi). cbn [sp_bind]. rewrite (pol_dk_zero i j Hi Hj). cbn [sp_bind fst snd].
+  replace (qi i - (0 + 0) * mfh) with (qi i) by ring. replace (rj j + (0 + 0) * mfh) with (rj j) by ring.
+  rewrite (pol_mod_modv _ _ Hpi). reflexivity.
+Qed.
+
+(** const_phi_id, explicit scheme: feet = nodes, f unchanged *)
+Theorem pol_const_phi_id_expl :
+  pol_step_expl F K E feq pi_ dt v B0 nul rPts qPts phi pol = SpOk pol_const_result.
+Proof.
+  unfold pol_step_expl. rewrite pol_prelude_const. cbn [sp_bind].
+  rewrite (pol_grid_mapM_ok F rPts qPts _ (fun i j => (mq i, rj j))) by (intros; apply pol_enode_const; assumption).
+  cbn [sp_bind]. apply pol_grid_mapM_ok. intros i j Hi Hj. unfold pol_at2.
+  rewrite (pol_grid_nth (fun i j => (mq i, rj j))) by assumption. apply pol_fill_const; assumption.
+Qed.
+
+(** implicit scheme: the loop exits after one sweep *)
+Variable tol : F.
+Hypothesis Htol : 0 <= tol.
+Hypothesis Hpi0 : 0 <= pi_.
+
+Lemma pol_abs_0 : pol_abs F K 0 = 0.
+Proof. unfold pol_abs. destruct (spleb K 0 0); [reflexivity|ring]. Qed.
+
+Lemma pol_inode_const mfh i j : (i < nq)%nat -> (j < nr)%nat ->
+  pol_impl_node F K E pi_ phi rmin rmax mfh (qi i) (rj j) (0, 0) (qi i, rj j) = SpOk ((mq i, rj j), (0, 0)).
+Proof.
+  intros Hi Hj. unfold pol_impl_node. cbn [fst snd]. rewrite (pol_mod_modv _ _ Hpi). cbn [sp_bind].
+  rewrite (pol_dk_zero i j Hi Hj). cbn [sp_bind fst snd].
+  replace (qi i - (0 + 0) * mfh) with (qi i) by ring. replace (rj j + (0 + 0) * mfh) with (rj j) by ring.
+  rewrite (pol_mod_modv _ _ Hpi). cbn [sp_bind].
+  destruct (Hr j Hj) as [_ Hin]. unfold pol_inside in Hin. apply negb_true_iff, orb_false_iff in Hin.
+  destruct Hin as [I1 I2]. unfold pol_clip. rewrite I1, I2.
+  unfold pol_qdiff. replace (mq i - mq i) with 0 by ring. replace (rj j - rj j) with 0 by ring.
+  rewrite pol_abs_0. replace (pol_ltb F K pi_ 0) with false by (symmetry; apply pol_ltb_false, Hpi0). reflexivity.
+Qed.
+
+Lemma pol_norm_zero (l : list ((F * F) * (F * F))) : (forall nd, In nd l -> snd nd = (0, 0)) ->
+  fold_left (fun n nd => pol_upd F K (pol_upd F K n (fst (snd nd))) (snd (snd nd))) l 0 = 0.
+Proof.
+  induction l as [|a l IH]; intros H; cbn [fold_left]; [reflexivity|].
+  rewrite (H a) by (left; reflexivity). cbn [fst snd].
+  assert (U : pol_upd F K 0 0 = 0) by (unfold pol_upd; destruct (pol_ltb F K 0 0); reflexivity).
+  rewrite !U. apply IH. intros nd Hin. apply H. right. exact Hin.
+Qed.
+
+Theorem pol_const_phi_id_impl fuel :
+  pol_step_impl F K E feq pi_ dt v B0 nul rPts qPts phi pol tol (S fuel) = PolRet (SpOk (pol_const_result, 1%nat)).
+Proof.
+  unfold pol_step_impl, pol_impl_start. rewrite pol_prelude_const. cbn [sp_bind].
+  rewrite (pol_grid_mapM_ok F rPts qPts _ (fun i j => ((0, 0), (qi i, rj j)))).
+  2:{ intros i j Hi Hj. rewrite Hz1, Hz2 by assumption. destruct (Hr j Hj) as [H0 _]. pose proof (pol_r_ne0 j Hj) as Hn.
+      unfold pol_impl_init, pol_d0. rewrite H0. cbn [sp_bind fst snd].
+      replace (0 / rj j) with 0 by (field; assumption).
+      replace (qi i - 0 * (dt / B0)) with (qi i) by ring. replace (rj j + 0 * (dt / B0)) with (rj j) by ring. reflexivity. }
+  cbn [sp_bind pol_lift]. cbn [pol_impl_loop].
+  set (G0 := map (fun i => map (fun j => ((0, 0), (qi i, rj j))) (seq 0 nr)) (seq 0 nq)).
+  assert (A1 : forall i j, (i < nq)%nat -> (j < nr)%nat -> pol_at2 F K (map (map fst) G0) i j = (0, 0)).
+  { intros i j Hi Hj. unfold pol_at2, G0. rewrite map_map.
+    rewrite (pol_nth_map_seq _ [] nq i Hi). rewrite map_map. rewrite (pol_nth_map_seq _ (0, 0) nr j Hj). reflexivity. }
+  assert (A2 : forall i j, (i < nq)%nat -> (j < nr)%nat -> pol_at2 F K (map (map snd) G0) i j = (qi i, rj j)).
+  { intros i j Hi Hj. unfold pol_at2, G0. rewrite map_map.
+    rewrite (pol_nth_map_seq _ [] nq i Hi). rewrite map_map. rewrite (pol_nth_map_seq _ (0, 0) nr j Hj). reflexivity. }
+  unfold pol_impl_sweep.
+  rewrite (pol_grid_mapM_ok F rPts qPts _ (fun i j => ((mq i, rj j), (0, 0)))).
+  2:{ intros i j Hi Hj. rewrite A1, A2 by assumption. apply pol_inode_const; assumption. }
+  cbn [sp_bind].
+  set (N := map (fun i => map (fun j => ((mq i, rj j), (0, 0))) (seq 0 nr)) (seq 0 nq)).
+  assert (EN : pol_norm_of F K N = 0).
+  { unfold pol_norm_of. apply pol_norm_zero. intros nd Hin. apply in_concat in Hin. destruct Hin as [row [Hrow Hnd]].
+    unfold N in Hrow. apply in_map_iff in Hrow. destruct Hrow as [i [<- _]].
+    apply in_map_iff in Hnd. destruct Hnd as [j [<- _]]. reflexivity. }
+  rewrite EN. replace (pol_ltb F K tol 0) with false by (symmetry; apply pol_ltb_false, Htol).
+  cbn [pol_lift].
+  rewrite (pol_grid_mapM_ok F rPts qPts _ (fun i j => (fv i j, (pol_modv (mq i) twopi, rj j)))).
+  - reflexivity.
+  - intros i j Hi Hj. unfold pol_at2, N. rewrite map_map.
+    rewrite (pol_nth_map_seq _ [] nq i Hi). rewrite map_map. rewrite (pol_nth_map_seq _ (0, 0) nr j Hj).
+    cbn [fst]. apply pol_fill_const; assumption.
+Qed.
+End ConstPhi.
+
 End PolLaws.
